@@ -164,6 +164,16 @@ func (E *Engine) markLabels(st *State) {
 	for _, e := range st.log {
 		c.labelHit[e.Label] = true
 	}
+	if c.spec != nil && len(c.spec.Never) > 0 && !st.dead {
+		for _, cl := range c.spec.Never {
+			for _, e := range st.log {
+				if e.Label == cl.Text || strings.HasSuffix(e.Label, "."+cl.Text) {
+					E.oblige(st, "never", cl.Text, "false", "no path performs "+cl.Text, "", cl)
+					break
+				}
+			}
+		}
+	}
 }
 
 // labelVacuity: a clause that inspects the arguments / results / state of calls labelled L
